@@ -24,7 +24,7 @@ func init() {
 			return map[string]int{"c04.table": c04Conds * c04States * c04Ops * 2}
 		},
 	})
-	expectedProbes["C04"] = []string{"c04.pass", "c04.fail_412", "c04.fail_304", "c04.junk_400", "c04.absent", "c04.resumable_changed_meanwhile", "c04.compose_source_generation"}
+	expectedProbes["C04"] = []string{"c04.pass", "c04.fail_412", "c04.fail_304", "c04.junk_400", "c04.absent", "c04.resumable_changed_meanwhile", "c04.compose_source_generation", "c04.compose_repeated_source_condition"}
 }
 
 // condsFromIndex decodes a truth-table index into parameters relative to the current object.
@@ -170,7 +170,22 @@ func runC04(r *Run) {
 			}
 			dc := conds
 			dc.GenMatch = nil
-			op = gOp{Kind: "Compose", Bucket: "bkt", Name: name, Conds: dc, Srcs: []string{"src.bin"}, SrcGens: []*string{sg}, DstMeta: map[string]interface{}{"contentType": "text/plain"}}
+			// the source may be named several times; the condition under test sits on one
+			// mention (first, middle or last), the other mentions carry none or a matching one
+			srcs := []string{"src.bin"}
+			gens := []*string{sg}
+			switch int(splitmix(uint64(it))>>7) % 4 { // layout: a fixed function of the item
+			case 1:
+				srcs, gens = []string{"src.bin", "src.bin"}, []*string{nil, sg}
+			case 2:
+				srcs, gens = []string{"src.bin", "src.bin"}, []*string{sg, ip(src.Gen)}
+			case 3:
+				srcs, gens = []string{"src.bin", "src.bin", "src.bin"}, []*string{ip(src.Gen), nil, sg}
+			}
+			if len(srcs) > 1 {
+				r.Probe("c04.compose_repeated_source_condition")
+			}
+			op = gOp{Kind: "Compose", Bucket: "bkt", Name: name, Conds: dc, Srcs: srcs, SrcGens: gens, DstMeta: map[string]interface{}{"contentType": "text/plain"}}
 		}
 		shapes = append(shapes, fmt.Sprintf("%d/%d/%d", opk, st, ci))
 		if _, ok := step(op); !ok {
